@@ -445,3 +445,19 @@ mod tests {
 }
 
 mod impl_not_none;
+
+/// Verification hook: crate-external access to the generic `remove_nan_mut`.
+#[cfg(rust_ndarray_ndarray_stats_verif)]
+pub fn verif_remove_nan_mut<A: MaybeNan>(view: ArrayViewMut1<'_, A>) -> ArrayViewMut1<'_, A> {
+    remove_nan_mut(view)
+}
+
+/// Verification hook: crate-external access to `cast_view_mut`.
+///
+/// # Safety
+///
+/// Same requirements as `cast_view_mut`.
+#[cfg(rust_ndarray_ndarray_stats_verif)]
+pub unsafe fn verif_cast_view_mut<T, U>(view: ArrayViewMut1<'_, T>) -> ArrayViewMut1<'_, U> {
+    cast_view_mut(view)
+}
